@@ -379,3 +379,25 @@ class FutureSim:
 
     def result(self, fobj):
         return self.state[fobj.tag]["result"]
+
+
+def acquire_release_use(func_node, ref):
+    """True when ``ref`` (an ast node naming a lock / semaphore attribute) is used as the explicit spelling of ``async with``:
+    ``await <ref>.acquire()`` as a statement immediately followed by a ``try`` whose ``finally`` calls ``<ref>.release()`` - or is
+    that release call itself."""
+    rt = text(ref)
+
+    def is_call(node, attr):
+        return isinstance(node, ast.Call) and isinstance(node.func, ast.Attribute) and node.func.attr == attr and text(node.func.value) == rt
+
+    for parent in ast.walk(func_node):
+        for fld in ("body", "orelse", "finalbody"):
+            blk = getattr(parent, fld, None)
+            if not isinstance(blk, list):
+                continue
+            for i, st in enumerate(blk[:-1]):
+                if isinstance(st, ast.Expr) and isinstance(st.value, ast.Await) and is_call(st.value.value, "acquire") and isinstance(blk[i + 1], ast.Try):
+                    rel = [c for fs in blk[i + 1].finalbody for c in ast.walk(fs) if is_call(c, "release")]
+                    if rel and (st.value.value.func.value is ref or any(c.func.value is ref for c in rel)):
+                        return True
+    return False
